@@ -1,11 +1,12 @@
 #!/bin/sh
-# stash_mut.sh Cxx : copy a finished sub-agent's deliverables to /verif/seeded_pending and remove its worktree
-c=$1
+# stash_mut.sh Cxx [worktree-prefix] : copy a finished sub-agent's deliverables to /verif/seeded_pending and remove its worktree
+c=$1; pre=${2:-wt_m}
 for v in A B C D E F; do
-  if [ -d /tmp/wt_m_$c/mutation/$v ]; then
+  if [ -d /tmp/${pre}_$c/mutation/$v ]; then
     rm -rf /verif/seeded_pending/$c-$v; mkdir -p /verif/seeded_pending/$c-$v
-    for f in patch.diff demo.c build_demo.sh NOTES.md; do cp /tmp/wt_m_$c/mutation/$v/$f /verif/seeded_pending/$c-$v/ 2>/dev/null; done
-    ls /verif/seeded_pending/$c-$v
+    for f in patch.diff demo.c build_demo.sh NOTES.md; do cp /tmp/${pre}_$c/mutation/$v/$f /verif/seeded_pending/$c-$v/ 2>/dev/null; done
+    sed -i "s#/tmp/${pre}_$c#/tmp/wt_m_$c#g" /verif/seeded_pending/$c-$v/build_demo.sh 2>/dev/null
+    echo "$c-$v: $(ls /verif/seeded_pending/$c-$v | tr '\n' ' ')"
   fi
 done
-git -C /repo worktree remove --force /tmp/wt_m_$c; rm -rf /tmp/wt_m_$c; git -C /repo worktree prune
+git -C /repo worktree remove --force /tmp/${pre}_$c; rm -rf /tmp/${pre}_$c; git -C /repo worktree prune
